@@ -116,12 +116,14 @@ def createFunction (env : Env) (eng : Engine) (m : MethodEntry) : Outcome Built 
     let srcDef := if m.opts.reverse then "dst" else "src"
     let dstDef := if m.opts.reverse then "src" else "dst"
     let srcVar := createVar env src srcDef
-    let dstVar := createVar env dst dstDef
+    let dstVar0 := createVar env dst dstDef
+    -- in arg style the destination parameter is a pointer whatever the method declares
+    let dstVar := if m.opts.style == .arg then { dstVar0 with pointer := true } else dstVar0
     let argVars := createArgVars env 0 additional
     if m.opts.receiver != "" && srcVar.external then
       err m.decl.pos "an external package type cannot be a receiver" else
     let srcVar := if m.opts.receiver != "" then { srcVar with name := m.opts.receiver } else srcVar
-    let ctx : BCtx := { env := env, eng := eng, opts := m.opts, methodPos := m.decl.pos }
+    let ctx : BCtx := { env := env, eng := eng, opts := m.opts, methodPos := m.decl.pos, retError := m.retError env }
     let argNodes := (argVars.zip additional).map fun (v, a) => Node.root v.name a.ty
     let fuel := env.tys.size + 1
     let stmts ← (if m.opts.reverse
